@@ -365,7 +365,11 @@ ARGS_LOOP:
 
 				if len(optionMatches) == 0 {
 					if currentProgramNode.requireOrder {
-						storeRemainingAsText(iterator, currentProgramNode)
+						// Store the verbatim token, the iterator has moved forward if an earlier option in the bundle consumed arguments.
+						currentProgramNode.ChildText = append(currentProgramNode.ChildText, token)
+						if iterator.Next() {
+							storeRemainingAsText(iterator, currentProgramNode)
+						}
 						break ARGS_LOOP
 					}
 					// TODO: This shouldn't append new children but update existing ones and isOption needs to be able to check if the option expects a follow up argument.
